@@ -134,7 +134,8 @@ def run(tier):
         "model_checking",
         "ZA for id lengths 0..N (every residue of the preimage mod 64), around 8000 and across the 16-bit ENTL limit "
         "(8189..8193, 10000); id- and za-level sign+verify round trips for message lengths over every residue mod 64 "
-        "with a replayable nonce stream; too-long ids through the wrappers; TLC recomputes ZA = SM3(ENTL||id||a||b||Gx||"
+        "with a replayable nonce stream (each round trip verifies twice on the same buffers and compares every input "
+        "buffer before/after), packed record layouts; too-long ids through the wrappers; TLC recomputes ZA = SM3(ENTL||id||a||b||Gx||"
         "Gy||xA||yA), e = SM3(ZA||M) with the TLA+ SM3 and the signature with module SM2, i.e. an oracle independent of "
         "the repository's SM3",
         ["TLC; SM3.tla (standard vectors), SM2.tla (toy-curve model), accelerators compared with definitions every run",
